@@ -198,9 +198,24 @@ def check(prop, tier, replay_case=None, replay_config=None):
         if f.get("status") == "open":
             for sg in ([f["signature"]] if isinstance(f["signature"], str) else f["signature"]):
                 open_sigs[sg] = f
+    import fnmatch
+
+    def _match(sig):
+        if sig in open_sigs:
+            return sig
+        for pat in open_sigs:
+            if any(ch in pat for ch in "*?[") and fnmatch.fnmatchcase(sig, pat):
+                return pat
+        return None
+
     new, known = [], []
     for sig, v in sorted(viols.items()):
-        (known if sig in open_sigs else new).append(v)
+        pat = _match(sig)
+        if pat is not None:
+            v["pattern"] = pat
+            known.append(v)
+        else:
+            new.append(v)
 
     rep_dir = os.path.join(common.OUT, "replays", prop)
     os.makedirs(rep_dir, exist_ok=True)
@@ -209,7 +224,7 @@ def check(prop, tier, replay_case=None, replay_config=None):
             if f.get("status") != "open":
                 continue
             sgs = [f["signature"]] if isinstance(f["signature"], str) else f["signature"]
-            n = sum(v["count"] for v in known if v["sig"] in sgs)
+            n = sum(v["count"] for v in known if v.get("pattern", v["sig"]) in sgs)
             log(f"KNOWN-FINDING: property={prop} {f['what']} [id={f['id']} observed={n}]")
     for v in new:
         w = v["witnesses"][0]
